@@ -73,6 +73,11 @@ def build(rng, family):
                  M.AND(M.S(-2), M.S(4)),
                  M.OR(M.AND(M.S(1), M.S(-2)), M.AND(M.S(3), M.S(-4))),
                  M.AND(M.S(1), M.OR(M.AND(M.S(3), M.S(-5)), M.S(-4)))]
+        # a union whose main branch is a sound pure intersection and whose
+        # other branches vanish through de-duplication
+        geoms += [M.OR(M.AND(M.S(-1), M.S(-3)), M.AND(M.S(3), M.S(-4))),
+                  M.OR(M.AND(M.S(1), M.S(3), M.S(-9 if False else 5)),
+                       M.AND(M.S(-1), M.S(2)), M.AND(M.S(4), M.S(-5)))]
         if family == 'dedup-many':
             geoms += [M.AND(M.S(2), M.S(5)), M.AND(M.S(-1), M.S(-5), M.S(3))]
         for num, geom in enumerate(geoms, start=1):
